@@ -31,6 +31,15 @@ type unionAll struct {
 	subSelects []sql.ISelect
 }
 
+// GetWith: the WITH clauses of every member (a select holding the union hoists them all, not only the first member's)
+func (u *unionAll) GetWith() []*sql.With {
+	res := u.ISelect.GetWith()
+	for _, s := range u.subSelects {
+		res = append(res, s.GetWith()...)
+	}
+	return res
+}
+
 func (u *unionAll) String(ctx *sql.Ctx, options ...int) (string, error) {
 	strSubSelects := make([]string, len(u.subSelects)+1)
 	var err error
